@@ -5,6 +5,9 @@ a. simple backend: writer/reader agreement on every field of backend::Commit, Si
 b. lossy encoders: a field that write_commit passes through an encoder that divides it (millis -> seconds) must be
    written back into the returned Commit from the encoded value before the Ok return
 c. Store::write_commit caches exactly the (id, commit) pair the backend returned
+e. git backend, list-valued commit headers: the reader splits `jj:conflict-labels` with exactly the separator the writer
+   joins and terminates with (and asserts is absent from every label) -- no splitting function that treats other
+   characters specially (str::lines strips '\r')
 d. git backend, extras table (change id, predecessors live there, keyed by commit id): the id is
    handed out only if the table has no entry for it or an equal one (otherwise the committer time is adjusted and the
    object rewritten); the entry (id -> serialize_extras(contents)) is added and the table saved (?-checked) before every
@@ -39,6 +42,7 @@ def run(ctx):
     rule_b(ctx)
     rule_c(ctx)
     rule_d(ctx)
+    rule_e(ctx)
 
 
 def _impl(F, trait_item, self_pat):
@@ -364,3 +368,55 @@ def rule_d(ctx):
         need = {"change_id", "predecessors"}
         ctx.ob("C17.d/extras-cover-table-fields", GB + "serialize_extras", need <= reads,
                f"reads {sorted(reads)}" if need <= reads else f"serialize_extras no longer reads {sorted(need - reads)}")
+
+
+def rule_e(ctx):
+    F = ctx.F
+    GB = "jj_lib::git_backend::"
+    rb = F.body(GB + "extract_conflict_labels_from_commit")
+    wimp = "<jj_lib::git_backend::GitBackend as jj_lib::backend::Backend>::write_commit"
+    wbs = [b for b in F.family_bodies(wimp) if any(name_matches(c.res or c.decl or "", "re:Itertools::join$") for c in b.calls if not c.cleanup)]
+    if not ctx.anchor("C17.e", "conflict-labels header reader / writer", min(1 if rb is not None else 0, len(wbs)), 1):
+        return
+    ctx.fn_seen(rb.id, wbs[0].id)
+    wb = wbs[0]
+    wsl = F.slicer(wb.id)
+    # writer separator: join(const) over contents.conflict_labels
+    wsep = None
+    for c in wb.calls:
+        if c.cleanup or not name_matches(c.res or c.decl or "", "re:Itertools::join$"):
+            continue
+        src = wsl.call_arg(c, 0)
+        if any(w[0] == "field" and w[3] == "conflict_labels" for w in walk(src)):
+            k = strip(wsl.call_arg(c, 1))
+            if isinstance(k, tuple) and k[0] == "const":
+                wsep = k[1]
+    # forbidden character asserted absent: a str::contains(const) in the writer family on labels
+    forb = set()
+    for b in F.family_bodies(wimp):
+        bsl = None
+        for c in b.calls:
+            if not c.cleanup and name_matches(c.res or c.decl or "", "re:str>::contains$"):
+                bsl = bsl or F.slicer(b.id)
+                k = strip(bsl.call_arg(c, 1))
+                if isinstance(k, tuple) and k[0] == "const":
+                    forb.add(k[1] if isinstance(k[1], str) else chr(k[1]))
+    rsl = F.slicer(rb.id)
+    splitters = [(c, (c.res or c.decl or "").split("::")[-1]) for c in rb.calls if not c.cleanup and
+                 name_matches(c.res or c.decl or "", "re:str>::(split|split_terminator|rsplit|splitn|lines|split_whitespace|"
+                              "split_ascii_whitespace|split_inclusive|rsplit_terminator)$")]
+    if not ctx.anchor("C17.e", "split call in extract_conflict_labels_from_commit", splitters, 1):
+        return
+    c, fn = splitters[0]
+    rsep = None
+    if len(c.args) > 1:
+        k = strip(rsl.call_arg(c, 1))
+        if isinstance(k, tuple) and k[0] == "const":
+            rsep = k[1] if isinstance(k[1], str) else chr(k[1])
+    ws = wsep if isinstance(wsep, str) else (chr(wsep) if isinstance(wsep, int) else None)
+    ok = fn in ("split_terminator", "split") and rsep is not None and rsep == ws and (ws in forb)
+    ctx.ob("C17.e/label-separator-agreement", GB + "extract_conflict_labels_from_commit", ok,
+           f"writer joins with {ws!r} (asserted absent from labels), reader {fn}({rsep!r})" if ok else
+           f"the reader splits the jj:conflict-labels header with {fn}({rsep!r}) while the writer joins with {ws!r} and only "
+           f"forbids {sorted(forb)} inside labels: a label containing a character the reader treats specially (e.g. a trailing "
+           f"'\\r' with lines()) does not read back as written", where=c.where())
